@@ -61,6 +61,7 @@ SEQ = {
                            'drop_class_in_use', 'names_lifecycle',
                            'subtree_moves', 'joint_overflow', 'f7_empty_write_unknown_consumer',
                            'f9_unknown_provider_new_consumer'],
+                replay=dict(quick=(4, 30, 2), thorough=(40, 60, 12)),
                 quick=(48, 35), thorough=(1500, 50)),
     'C12': dict(models=['MC_alloc'], weights=W_CONS, configs=True,
                 scenarios=['consumer_lifecycle',
@@ -169,10 +170,28 @@ def run_seq(prop, tier, seed, model=True):
     jobs = seqengine.split_jobs(hs, 12 if tier == 'quick' else 14,
                                 weights=c.get('weights'),
                                 read_after_write=c.get('read_after_write'))
+    replay_async = None
+    replay_pool = None
+    if c.get('replay'):
+        # spec -> code: behaviours simulated by TLC from MC_API.tla replayed into the real code
+        import multiprocessing as mp
+        from pv import replay as replaymod
+        num, depth, nproc = c['replay'][tier]
+        replay_pool = mp.get_context('spawn').Pool(nproc)
+        replay_async = replay_pool.map_async(
+            replaymod.worker, [{'num': num, 'depth': depth, 'seed': seed * 97 + w + 1} for w in range(nproc)], chunksize=1)
     try:
         results = seqengine.run_jobs(jobs)
     except tlc.TLCError as ex:
         raise Machinery(str(ex))
+    replay_results = []
+    if replay_async is not None:
+        try:
+            replay_results = replay_async.get(timeout=7200)
+        except tlc.TLCError as ex:
+            raise Machinery(str(ex))
+        finally:
+            replay_pool.close()
     nlines = sum(r['n'] for r in results)
     nhist = sum(r['histories'] for r in results)
     if nlines == 0:
@@ -185,7 +204,7 @@ def run_seq(prop, tier, seed, model=True):
             ops[k] = ops.get(k, 0) + v
     violations = []
     known = []
-    for r in results:
+    for r in list(results) + [dict(rr, keys={}) for rr in replay_results]:
         for bad in r['bad']:
             why = seqengine.attribute(prop, bad)
             if not why:
@@ -201,6 +220,12 @@ def run_seq(prop, tier, seed, model=True):
             else:
                 violations.append((bad, why, sig))
     extra_cov = {}
+    if replay_results:
+        extra_cov['tlc_simulated_behaviours_replayed_into_impl'] = sum(r['behaviours'] for r in replay_results)
+        extra_cov['tlc_simulated_steps_replayed'] = sum(r['steps'] for r in replay_results)
+        if sum(r['steps'] for r in replay_results) == 0:
+            raise Machinery('no simulated behaviour was replayed')
+        nhist += sum(r['behaviours'] for r in replay_results)
     if prop == 'C04':
         # a request rejected because it lost a race must not have committed anything either
         n2 = 0
